@@ -189,7 +189,12 @@ SPEC_DEFAULTS = {
     "nuget": [("repository_url", "https://www.nuget.org"), ("repository_url", "https://api.nuget.org/v3/index.json")],
     "golang": [("repository_url", "https://proxy.golang.org"), ("type", "module"), ("vcs_url", "git+https://github.com/a/b")],
 }
-GENERIC_DEFAULTS = [("vers", "vers:npm/>=1.2.0|<2.0.0"), ("vers", "*"), ("version", "2.0"), ("name", "other"), ("checksums", "SHA1:AB,MD5:Cd"), ("checksums", "verified"), ("hashes", "sha256:ABCD"), ("integrity", "sha512-AbC/+="), ("arch", "noarch"), ("arch", "any"), ("os", "linux"), ("type", "jar"), ("platform", "ruby"), ("distro", "default"),
+# URL-looking text that a URL "normaliser" written by hand would trip over (brackets, empty parts, odd ports, mixed case)
+URL_ODD = ["https://ci]bot@[2001:DB8::1]:8443/simple", "git+ssh://a]b@[::1]/libc.git", "http://[::1", "http://]@[", "http://[", "http://@:/", "://", "a://[", "http://[::1]:",
+           "http://user:pw@[v1.x]:99999/", "HTTPS://Registry.Example.COM/Simple/", "Git+SSH://git@GitHub.com:22/A/B.git", "Http://pypi.internal:80/simple", "https://example.com:443",
+           "HTTP://EXAMPLE.COM:80", "ftp://EXAMPLE.org:21/x", "https://exa\u00e9mple.COM/", "https://xn--exmple-cua.com/", "HTTPS://@/", "https:///path", "https://host:/p", "//host/p",
+           "mailto:User@Example.COM", "https://user@HOST@Host2/", "file:///C:/Path", "https://EXAMPLE.com.:443/", "https://example.com:0443/"]
+GENERIC_DEFAULTS = [(k_, u_) for u_ in URL_ODD for k_ in ("repository_url", "download_url", "vcs_url")][::3] + [("vers", "vers:npm/>=1.2.0|<2.0.0"), ("vers", "*"), ("version", "2.0"), ("name", "other"), ("checksums", "SHA1:AB,MD5:Cd"), ("checksums", "verified"), ("hashes", "sha256:ABCD"), ("integrity", "sha512-AbC/+="), ("arch", "noarch"), ("arch", "any"), ("os", "linux"), ("type", "jar"), ("platform", "ruby"), ("distro", "default"),
                     ("repository_url", "https://example.org"), ("epoch", "0"), ("ext", "tar.gz"),
                     # values with a tempting normal form of their own (URLs, architecture aliases, booleans)
                     ("repository_url", "HTTPS://Example.ORG:443/a/../b/?x=1#f"), ("repository_url", "https://example.org/"),
